@@ -31,6 +31,8 @@ ASSUMPTIONS = [
     "frames from stream_frames are written with the writer matching params.delimited, as the rdflib serializer does",
     "documented quirk: a base logical type GRAPHS with quad data uses a TripleStream; checked on the (s,p,o) projection",
     "rdflib containers: set semantics; statement generators: sequence semantics",
+    "a stream class for quads fed triples must raise, or write the triples as default-graph content; a TripleStream fed "
+    "quad tuples outside the documented Dataset case is not judged",
 ]
 
 FLOWS = [None, "ManualFrameFlow", "ManualFrameFlow:lt", "BoundedFrameFlow", "BoundedFrameFlow:lt",
@@ -254,9 +256,14 @@ def execute(pt, stmts):
 def check_point(pt, stmts, acc):
     integ = pt["entry"].split(".")[0]
     arity = len(stmts[0])
+    short_statements = False
     if "phys" in pt and ((pt["phys"] == "TRIPLES") != (arity == 3)):
-        # a TripleStream fed quads (or vice versa): only the documented Dataset-with-TripleStream case is meaningful
-        if not (integ == "rdflib" and pt["phys"] == "TRIPLES" and arity == 4 and pt.get("form") == "container"):
+        if pt["phys"] != "TRIPLES" and arity == 3:
+            # a QuadStream / GraphStream fed triples: every statement is one term short. It must be refused - or, if a
+            # combination takes the triples for default-graph content, write exactly that
+            short_statements = True
+        elif not (integ == "rdflib" and pt["phys"] == "TRIPLES" and arity == 4 and pt.get("form") == "container"):
+            # a TripleStream fed quads: only the documented Dataset-with-TripleStream case is meaningful
             return None
     case = {"point": pt, "statements": stmts}
     r = execute(pt, stmts)
@@ -281,6 +288,19 @@ def check_point(pt, stmts, acc):
         if len(s.flow):
             return Violation(f"C06:rows-left-in-flow:{bucket}", f"{pt['entry']} returned with {len(s.flow)} rows still in the "
                              f"stream's flow ({type(s.flow).__name__}); {len(data)} bytes written", case)
+    if short_statements:
+        if acc is not None:
+            acc.count("stream_for_quads_fed_triples_accepted")
+        res = jellyref.decode(data, delim_writer, "strict") if data else None
+        got = None if res is None or res.error is not None else [[list(T.norm(t)) for t in s[:3]] for s in res.statements
+                                                                 if len(s) == 3 or s[3][0] == "default"]
+        conv = (lambda t: T.norm(t)) if integ == "generic" else (lambda t: T.norm(T.rdflib_canon(t)))
+        want = [[list(conv(t)) for t in s] for s in stmts]
+        if got is None or sorted(map(repr, got)) != sorted(map(repr, want)):
+            return Violation(f"C06:short-statements-accepted:{bucket}", f"{pt['entry']} with a {pt['phys']} stream accepted "
+                             f"{len(stmts)} triples and returned normally; the {len(data)} bytes written hold "
+                             f"{'no decodable content' if got is None else str(len(got)) + ' of them'}", case)
+        return None
     if not data:
         return Violation(f"C06:nothing-written:{bucket}", f"{pt['entry']} accepted the configuration and wrote nothing for "
                          f"{len(stmts)} statements", case)
